@@ -120,8 +120,8 @@ def cost_job(interp, c, case):
     ics = [{s_: c.real("ic_%d_%s" % (n, s_), lo=0) for s_ in keysets[n % 4]} for n in range(N)]
     if cond_kind == "list":
         # per-trajectory dictionaries need not have the same keys: later trajectories set more parameters here
-        # (neither nested nor ordered: trajectory 0 sets cnd, 1 sets nothing, 2 sets k2, 3 sets both)
-        keysets = (("cnd",), (), ("k2",), ("cnd", "k2"))
+        # (neither nested nor ordered: trajectory 0 sets cnd, 1 sets k2, 2 sets nothing, 3 sets both)
+        keysets = (("cnd",), ("k2",), (), ("cnd", "k2"))     # N = 2: each trajectory sets a parameter the other one does not
         pcs = [{k_: c.real("p%s_%d" % (k_, n)) for k_ in keysets[n % 4]} for n in range(N)]
     elif cond_kind == "dict":
         pcs = {"cnd": c.real("pc_all")}
